@@ -258,6 +258,9 @@ func (env *Env) Eval(e *Expr) (res any) {
 		}
 		return a.Slice(lo, hi)
 	case "call":
+		if e.Name == "entry" && len(e.Args) == 1 {
+			return env.Eval(&Expr{Kind: "old", Args: e.Args})
+		}
 		return env.call(e)
 	}
 	unk("cannot evaluate %s", e)
